@@ -443,7 +443,7 @@ def run(run):
                 return None
             nodes = PE.Spec(F, assume=assume).reach(fn["body"], {})
             rem = any(T.is_call(x, "remove") for x in nodes)
-            ins = any(T.is_call(x, ("insert", "entry")) for x in nodes)
+            ins = any(T.is_call(x, ("insert", "or_insert", "or_insert_with", "insert_entry")) for x in nodes)
             return rem, ins, hits["n"]
         rem_t, ins_t, h1 = taint_case(True)
         rem_f, ins_f, h2 = taint_case(False)
